@@ -17,17 +17,17 @@ use std::sync::atomic::{AtomicU16, Ordering};
 
 // ---------------------------------------------------------------------------------------------
 // Spec-level view of a queue word (independent of the code's own get/set).
-fn fld(w: u16, i: u16) -> u16 {
+pub fn fld(w: u16, i: u16) -> u16 {
     (w >> (3 * i)) & 7
 }
-fn qlen(w: u16) -> u16 {
+pub fn qlen(w: u16) -> u16 {
     let mut n = 0;
     while n < 5 && fld(w, n) != 0 {
         n += 1;
     }
     n
 }
-fn member(w: u16, idx: u16) -> bool {
+pub fn member(w: u16, idx: u16) -> bool {
     let mut i = 0;
     let mut m = false;
     while i < 5 {
@@ -39,7 +39,7 @@ fn member(w: u16, idx: u16) -> bool {
     idx != 0 && m
 }
 /// well-formed: bit 15 clear, contiguous prefix of distinct indices in 1..=5, zeros after.
-fn wf(w: u16) -> bool {
+pub fn wf(w: u16) -> bool {
     if w & 0x8000 != 0 {
         return false;
     }
@@ -300,54 +300,9 @@ fn new_raw() -> Channel<P> {
     Channel { storage: Default::default(), empty: AtomicU16::new(0), full: AtomicU16::new(0) }
 }
 
-// =============================================================================================
-// C06.BITS - field algebra of get/set, all inputs (loop-free, complete)
-#[kani::proof]
-fn c06_bits() {
-    let n: u16 = kani::any();
-    let i: u16 = kani::any();
-    let j: u16 = kani::any();
-    let v: u16 = kani::any();
-    kani::assume(i < 5 && j < 5 && v <= 7);
-    assert!(get(n, i) == fld(n, i), "C06.BITS: get reads field idx (3 bits at 3*idx), also for positions 3-4");
-    let m = set(n, i, v);
-    assert!(fld(m, i) == v, "C06.BITS: set writes field idx");
-    assert!(i == j || fld(m, j) == fld(n, j), "C06.BITS: set leaves every other field alone");
-    assert!((m & 0x8000) == (n & 0x8000), "C06.BITS: set leaves the unused top bit alone");
-}
-
-// C06.DEQ / C06.ENQ - sequential contracts over the abstract queue, every well-formed word
-#[kani::proof]
-#[kani::unwind(7)]
-fn c06_seq_dequeue() {
-    let w: u16 = kani::any();
-    kani::assume(wf(w));
-    let q = AtomicU16::new(w);
-    let r = dequeue(&q);
-    let w2 = q.load(Ordering::SeqCst);
-    if qlen(w) == 0 {
-        assert!(r.is_none() && w2 == w, "C06.DEQ: dequeue reports empty exactly for the empty queue and changes nothing");
-    } else {
-        assert!(r == Some(fld(w, 0)), "C06.DEQ: dequeue returns the front element");
-        assert!(w2 == w >> 3 && wf(w2) && qlen(w2) == qlen(w) - 1, "C06.DEQ: the rest of the queue moves up unchanged (pop-front)");
-    }
-    kani::cover!(qlen(w) == 5, "C06.cover: dequeue from a full queue");
-    kani::cover!(qlen(w) == 0, "C06.cover: dequeue from an empty queue");
-}
-#[kani::proof]
-#[kani::unwind(7)]
-fn c06_seq_enqueue() {
-    let w: u16 = kani::any();
-    let v: u16 = kani::any();
-    kani::assume(wf(w) && qlen(w) < 5 && v >= 1 && v <= 5 && !member(w, v));
-    let q = AtomicU16::new(w);
-    enqueue(&q, v);
-    let w2 = q.load(Ordering::SeqCst);
-    let n = qlen(w);
-    assert!(wf(w2) && qlen(w2) == n + 1 && fld(w2, n) == v, "C06.ENQ: enqueue appends at the back");
-    assert!(w2 == (w | (v << (3 * n))), "C06.ENQ: and leaves the elements in front untouched (push-back), also at positions 3-4");
-    kani::cover!(n == 4, "C06.cover: enqueue into the last position");
-}
+// (C06.BITS / C06.DEQ / C06.ENQ, which call the private get/set/enqueue/dequeue directly, live in
+// /verif/kani/channel_priv.rs so that a signature change of those helpers cannot take the public-API
+// contracts below down with it.)
 
 // C06.NEW - a fresh channel: empty = [1..5], full = [], all cells None
 #[kani::proof]
